@@ -4,7 +4,7 @@ PROP = {
     "properties_file": "Properties/C02.v",
     "theorems": ["C02_antisym", "C02_trans", "C02_total_preorder", "C02_tie_iff_key_eq", "C02_less_strict_weak_order",
                  "C02_order_independent", "C02_history_independent", "C02_history_state", "C02_ecmp_is_key",
-                 "C02_ecmp_total", "C02_sort_hypothesis_satisfiable", "C02_every_history_runs"],
+                 "C02_ecmp_total", "C02_ecmp_set_exact", "C02_sort_hypothesis_satisfiable", "C02_every_history_runs"],
     "allowed_axioms": [],
     "harness": "c02",
     "modelrun": {"name": "c02", "extracted": ["c02_model"], "driver": "ocaml/c02/c02_run.ml"},
